@@ -1,4 +1,4 @@
-import Rare.Proofs.C14Unit
+import Rare.Proofs.C14HeatWidth
 import Rare.Gen.C14
 /-!
 # C14 – Renderers never crash and draw quantities proportionally within bounds
@@ -7,7 +7,8 @@ Property theorems about `Rare/Model/C14.lean` (+ `C14Format.lean`), the model of
 b2c2a9f (stacked bars, running maximum 0), 7206d40 (bar length overflow), 0b7fa09 (stacked bar with
 negative values), a20c03a (aliased value slices), b1ca348 (heatmap header loop), 9780d5d (spark with
 no columns), 6408ebf (inverted remapped range), c54b92c (sparkline header measured in bytes),
-73473fc (reduce table: group key with more parts than group columns).
+73473fc (reduce table: group key with more parts than group columns), 7b183e0 (histogram refresh skipped
+rows with a value ≤ 0).
 
 Numbers: the model is polymorphic in the `float64` operations (`Arith α`).  Two instances carry theorems:
 ℚ (`ratArith L2 L10`: exact conversion and `+ - * /`, abstract logarithms only assumed monotone and
@@ -23,9 +24,11 @@ hand copies used by the model to them, `bucket_in_range` is stated over the gene
 `guards_match_source` / `render_code_matches_source` pin guard chains, formatter call arguments, the
 closure of `termformat.FromExpression`, the reduce-table guard and the sparkline header measure.
 
-Sections: ties to the source · scaler laws · bars · layout (header loop, cells) · table columns line up
-(every `WriteRow`/`WriteFooter` sequence) · formatters and displayed numbers · data table / reduce table ·
-heatmap and sparkline as whole renderers · "(n more)" arithmetic · non-vacuity examples.
+Sections: ties to the source · scaler laws over ℚ · scaler laws on binary64 · bars · layout (header loop, cells) ·
+table columns line up (every `WriteRow`/`WriteFooter` sequence) · formatters and displayed numbers · histogram and
+bar graph as whole renderers (redraw invariant, every row at the current scale, grouped-bars line, heatmap row
+width) · data table / reduce table · heatmap and sparkline as whole renderers · "(n more)" arithmetic ·
+non-vacuity examples.
 -/
 namespace Rare.C14
 open Rare Rare.C20
@@ -71,6 +74,25 @@ theorem render_code_matches_source :
     Gen.C14.fromExpressionState = ["kb, err := expandCompileExpression(expr)", "ctx := &formatExpressionContext{}"] ∧
     Gen.C14.reduceGroupGuards = ["aggr.GroupColCount() > 0 || table", "idx >= aggr.GroupColCount()"] ∧
     Gen.C14.sparkHeaderDots = ["len(colNames) - color.StrLen(colNames[0]) - color.StrLen(colNames[len(colNames)-1])"] := by
+  decide
+
+/-- the float computation the binary64 theorems are about is the one in /repo, statement by statement (printed
+bodies, regenerated on every run): `Scale` (three guards, the remapped ends, the degenerate-range guard, the
+quotient of the two differences), `remapMinMax` (`max = min + 1` in int64, `Floor`/`Ceil` of the mapped ends),
+`Bucket` / `LengthVal` (`int(u * float64(n))`), the `mapVal` closures (`f <= 1.0 → 0.0`, else the logarithm), and the
+refresh loop of the histogram (every line that was written, 7b183e0) – `scale`, `remapMinMax`, `mapVal`, `bucket`,
+`lengthVal` of the model with `f64Arith` perform exactly these operations, each with IEEE rounding -/
+theorem scale_code_matches_source :
+    Gen.C14.scaleBody = ["if max < min { return 0.0 }", "if val < min { return 0.0 }", "if val > max { return 1.0 }",
+      "minf10, maxf10 := s.remapMinMax(min, max)", "if minf10 >= maxf10 { return 0.0 }",
+      "return (s.mapVal(float64(val)) - minf10) / (maxf10 - minf10)"] ∧
+    Gen.C14.remapBody = ["if max <= min { max = min + 1 }", "return math.Floor(s.mapVal(float64(min))), math.Ceil(s.mapVal(float64(max)))"] ∧
+    Gen.C14.bucketBody = ["return int(unitVal * float64(buckets-1))"] ∧
+    Gen.C14.lengthValBody = ["return int(unitVal * float64(maxLen))"] ∧
+    Gen.C14.mapLinearBody = ["return f"] ∧
+    Gen.C14.mapLog2Body = ["if f <= 1.0 { return 0.0 }", "return math.Log2(f)"] ∧
+    Gen.C14.mapLog10Body = ["if f <= 1.0 { return 0.0 }", "return math.Log10(f)"] ∧
+    Gen.C14.histoFullRenderBody = ["for idx, item := range s.items { if item.set { s.writeLine(idx, item.key, item.val) } }"] := by
   decide
 
 /-! ## scaler laws (∀ val, min, max) -/
@@ -472,6 +494,179 @@ theorem reduce_render_ok (env : Env) (r : Reduce) (vt : VirtualTerm) (hinv : Tab
     fun j part hj hp => reduce_rowCells_parts env r g.1 g.2 j part hj hp,
     fun j x hj hx => reduce_rowCells_data env r g.1 g.2 j x hj hx⟩
 
+/-! ## histogram and bar graph as whole renderers: every displayed row is drawn at the CURRENT scale
+
+Stated once for every instance `A` of the float operations that satisfies `UnitLaws A Dom Unit le` – exact rationals
+(`float_laws_rat`) and IEEE binary64 on int64 values (`float_laws_f64`).  `Dom` is the set of integers the instance
+handles (all of them / int64). -/
+
+/-- a new histogram (`NewHistogram(term, maxLines)`) on an empty terminal satisfies the redraw invariant -/
+theorem histo_new_invariant {α : Type} {A : Arith α} {Dom : Int → Prop} {Unit : α → Prop} {le : α → α → Prop} (U : UnitLaws A Dom Unit le)
+    (env : Env) (maxLines : Int) (showBar showPct : Bool) (scaler : Scaler) (fmt : Fmt) (h : Histo)
+    (hn : Histo.new maxLines showBar showPct scaler fmt = .ok h) :
+    HistoInv A Dom env h VirtualTerm.new ∧ (h.items.length : Int) = maxLines ∧ h.maxVal = 0 :=
+  histo_new_inv U env maxLines showBar showPct scaler fmt h hn
+
+/-- `histo_redraw_invariant`.  From any state satisfying `HistoInv` (a new histogram, or the state after any calls),
+EVERY sequence of `WriteForLine(n, key, val)` / `UpdateTotal(total)` calls – any lines in any order, lines
+rewritten, keys that widen the key column, values that raise the running maximum, zero and negative
+values (7b183e0) – returns in a state satisfying `HistoInv` again:
+
+* every written line `i` shows its latest `(key, value)` drawn with the CURRENT state of the writer
+  (`drawn`: `lines[i] = lineText h key value`; a wider key or a larger value redraws ALL written lines, so no line
+  keeps a stale key column, maximum or total),
+* the running maximum covers every row, the key column every key; the settings never change, the
+  running maximum and the key column only grow. -/
+theorem histo_redraw_invariant {α : Type} {A : Arith α} {Dom : Int → Prop} {Unit : α → Prop} {le : α → α → Prop} (U : UnitLaws A Dom Unit le)
+    (env : Env) (h : Histo) (vt : VirtualTerm) (hinv : HistoInv A Dom env h vt) (ops : List HistoOp)
+    (hops : ∀ op ∈ ops, op.Valid Dom h.items.length) :
+    ∃ vt', Histo.runOps A env (h, vt) ops = .ok (h.stateAfterAll env ops, vt') ∧ HistoInv A Dom env (h.stateAfterAll env ops) vt' ∧
+      h.SameConfig (h.stateAfterAll env ops) ∧ h.maxVal ≤ (h.stateAfterAll env ops).maxVal ∧
+      h.textSpacing ≤ (h.stateAfterAll env ops).textSpacing := by
+  obtain ⟨vt', h1, h2⟩ := histo_runOps_inv U env ops h vt hinv hops
+  obtain ⟨c, m, t⟩ := histo_stateAfterAll_config env ops h
+  exact ⟨vt', h1, h2, c, m, t⟩
+
+/-- what `HistoInv` says of a written line: it starts with the key padded to the CURRENT key column and
+`Formatter(value, 0, maxVal)` for the CURRENT running maximum, which covers the value; and when bars are shown the
+line ends with the bar `BarWrite(Scale(value, 0, maxVal), 50)` for that same maximum – at most 50 glyphs -/
+theorem histo_rows_current_scale {α : Type} {A : Arith α} {Dom : Int → Prop} {Unit : α → Prop} {le : α → α → Prop} (U : UnitLaws A Dom Unit le)
+    (env : Env) (h : Histo) (vt : VirtualTerm) (hinv : HistoInv A Dom env h vt) (i : Nat) (key : Bytes) (val : Int)
+    (hi : h.items[i]? = some (some (key, val))) :
+    ∃ tail, vt.lines[i]? = some (wrap env cYellow (padRight key h.textSpacing) ++ ascii "    " ++
+        padRight (h.fmt.apply val 0 h.maxVal) 10 ++ tail) ∧
+      val ≤ h.maxVal ∧ strLen env key ≤ h.textSpacing ∧
+      (h.showBar = true ∧ h.maxVal > 0 → ∃ mid glyphs, tail = mid ++ [32] ++ colorWrite env cBlue (glyphs.flatMap encodeRune) ∧
+        barWriteR A env (scale A h.scaler val 0 h.maxVal) 50 = .ok glyphs ∧
+        (glyphs.length : Int) = glyphCount A env 50 (scale A h.scaler val 0 h.maxVal) ∧ glyphs.length ≤ 50) := by
+  obtain ⟨tail, ht, hbar, _⟩ := histo_lineText_shape (A := A) env h key val
+  refine ⟨tail, ?_, hinv.max_cover i key val hi, hinv.key_cover i key val hi, ?_⟩
+  · rw [hinv.drawn i key val hi, ht]; rfl
+  · intro hb
+    obtain ⟨mid, hm⟩ := hbar hb
+    obtain ⟨rs, h1, h2, h3, h4⟩ := histo_bar_shape U env h val (hinv.dom_items i key val hi) hinv.dom_max
+    exact ⟨mid, rs, by rw [hm, h2], h1, h3, h4⟩
+
+/-- the bars of one histogram are proportional to each other: of two written lines the one with the larger
+value never has the shorter bar (both are scaled with the one current maximum) -/
+theorem histo_bars_proportional {α : Type} {A : Arith α} {Dom : Int → Prop} {Unit : α → Prop} {le : α → α → Prop} (U : UnitLaws A Dom Unit le)
+    (env : Env) (h : Histo) (vt : VirtualTerm) (hinv : HistoInv A Dom env h vt) (i i' : Nat) (key key' : Bytes) (val val' : Int)
+    (hi : h.items[i]? = some (some (key, val))) (hi' : h.items[i']? = some (some (key', val'))) (hvv : val ≤ val') :
+    glyphCount A env 50 (scale A h.scaler val 0 h.maxVal) ≤ glyphCount A env 50 (scale A h.scaler val' 0 h.maxVal) :=
+  histo_bars_monotone U env h val val' (hinv.dom_items i key val hi) (hinv.dom_items i' key' val' hi') hinv.dom_max hvv
+
+/-- `histo_render_current_scale`: ONE RENDER of `rare histo` (`writeHistoOutput`: `UpdateTotal`, then `WriteForLine` for
+every item with at least `atLeast` samples) from any state satisfying the invariant – a new histogram, or the
+state after ANY NUMBER of earlier renders with a growing running maximum: it returns, the invariant holds
+again, and line `i` shows the `i`-th displayed item drawn with the FINAL state (`histo_rows_current_scale`
+says what that is: the number is `Formatter(value, 0, current max)`) -/
+theorem histo_render_current_scale {α : Type} {A : Arith α} {Dom : Int → Prop} {Unit : α → Prop} {le : α → α → Prop} (U : UnitLaws A Dom Unit le)
+    (env : Env) (h : Histo) (vt : VirtualTerm) (hinv : HistoInv A Dom env h vt) (items : List (Bytes × Int)) (total atLeast : Int)
+    (hdom : ∀ it ∈ items, Dom it.2) (hfit : (histoShown items atLeast).length ≤ h.items.length) :
+    ∃ h' vt', h.writeOutput A env vt items total atLeast = .ok (h', vt') ∧ HistoInv A Dom env h' vt' ∧
+      h.SameConfig h' ∧ h.maxVal ≤ h'.maxVal ∧
+      (∀ (i : Nat) (it : Bytes × Int), (histoShown items atLeast)[i]? = some it →
+        h'.items[i]? = some (some it) ∧ vt'.lines[i]? = some (h'.lineText A env it.1 it.2) ∧ it.2 ≤ h'.maxVal) := by
+  obtain ⟨vt', h1, h2⟩ := histo_writeOutput_inv U env h vt hinv items total atLeast hdom hfit
+  obtain ⟨c, m, _⟩ := histo_stateAfterAll_config env (histoOutputOps items total atLeast) h
+  refine ⟨_, vt', h1, h2, c, m, ?_⟩
+  intro i it hi
+  have hr := histo_render_rows env h items total atLeast hfit i it hi
+  exact ⟨hr, h2.drawn i it.1 it.2 hr, h2.max_cover i it.1 it.2 hr⟩
+
+/-- a new bar graph (`NewBarGraph` with the command's settings) on an empty terminal: the running maximum covers
+the (no) stored rows -/
+theorem bars_new_invariant {α : Type} {A : Arith α} {Dom : Int → Prop} {Unit : α → Prop} {le : α → α → Prop} (U : UnitLaws A Dom Unit le)
+    (stacked : Bool) (barSize : Int) (scaler : Scaler) (fmt : Fmt) (hb : 0 ≤ barSize) (hb' : barSize ≤ 1000000000000000) :
+    BarPre Dom ({ stacked := stacked, barSize := barSize, scaler := scaler, fmt := fmt } : BarGraph) VirtualTerm.new :=
+  bars_new_pre U stacked barSize scaler fmt hb hb'
+
+/-- `bars_render_current_scale`: ONE RENDER of `rare bars` (`SetKeys(subKeys…)`, then `WriteBar(i, key_i, vals_i…)` for the
+rows in order, as `cmd/bargraph.go` does) from ANY state in which the running maximum covers the stored rows
+(`BarPre`: a new graph, or the state after ANY NUMBER of earlier renders – also with fewer sub-keys): it returns,
+`BarPre` holds again, the running maximum only grew, and EVERY row of this render is stored and drawn
+(`RowDrawn`, see `bars_drawn_row_shape`) with the FINAL running maximum – whichever `WriteBar` calls raised the
+maximum and redrew the graph on the way: the bars of one graph are proportional to each other and every
+number is `Formatter(value, 0, final max)`.  Grouped rows have at most one value per sub-key. -/
+theorem bars_render_current_scale {α : Type} {A : Arith α} {Dom : Int → Prop} {Unit : α → Prop} {le : α → α → Prop} (U : UnitLaws A Dom Unit le)
+    (env : Env) (g : BarGraph) (vt : VirtualTerm) (hpre : BarPre Dom g vt) (subKeys : List Bytes) (rows : List (Bytes × List Int))
+    (hrows : ∀ row ∈ rows, (∀ v ∈ row.2, Dom v) ∧ (g.stacked = true ∨ row.2.length ≤ subKeys.length))
+    (N : Nat) (hN : g.rows.length + rows.length ≤ N)
+    (hgeo : g.prefixLines.toNat + 1 + (N + 1) * (subKeys.length + 1) < 4611686018427387904) :
+    ∃ g' vt', g.writeOutput A env vt subKeys rows = .ok (g', vt') ∧ BarPre Dom g' vt' ∧
+      (∀ (i : Nat) (row : Bytes × List Int), rows[i]? = some row → g'.rows[i]? = some row ∧ RowDrawn A env g'.cfg vt' i row) ∧
+      g'.cfg.stacked = g.stacked ∧ g'.cfg.nsub = subKeys.length ∧ g'.cfg.scaler = g.scaler ∧ g'.cfg.fmt = g.fmt ∧
+      g'.cfg.barSize = g.barSize ∧ g'.cfg.max = g'.maxLineVal ∧ g.maxLineVal ≤ g'.maxLineVal ∧
+      (g'.cfg.first = g.prefixLines.toNat ∨ g'.cfg.first = 1) :=
+  bars_render_inv U env g vt hpre subKeys rows hrows N hN hgeo
+
+/-- what `RowDrawn` says, spelled out.  Stacked: the row's one line is the key, the bar
+`BarWriteStacked(max, BarSize, values)` and `Formatter(sum, 0, max)`.  Grouped: line `j` of the row is the key or
+the indentation, the bar `BarWrite(Scale(values[j], 0, max), BarSize)` – at most `BarSize` glyphs –, a blank and
+`Formatter(values[j], 0, max)`: all for the ONE running maximum `max` of the configuration -/
+theorem bars_drawn_row_shape {α : Type} {A : Arith α} {Dom : Int → Prop} {Unit : α → Prop} {le : α → α → Prop} (U : UnitLaws A Dom Unit le)
+    (env : Env) (c : BarCfg) (vt : VirtualTerm) (i : Nat) (row : Bytes × List Int) (h : RowDrawn A env c vt i row)
+    (hd : ∀ v ∈ row.2, Dom v) (hm : Dom c.max) (hb : 0 ≤ c.barSize) (hb' : c.barSize ≤ 1000000000000000) :
+    (c.stacked = true → ∃ w bar, vt.lines[c.first + i]? = some (wrap env cYellow (padRight row.1 w) ++ ascii "  " ++ bar ++ ascii "  " ++
+        c.fmt.apply (sumWrap row.2) 0 c.max) ∧ barWriteStacked env c.max c.barSize row.2 = .ok bar) ∧
+    (c.stacked = false → ∀ (j : Nat) (v : Int), row.2[j]? = some v → ∃ pre glyphs,
+        vt.lines[c.first + i * c.nsub + j]? = some (pre ++ colorWrite env (groupColors.getD (j % groupColors.length) []) (glyphs.flatMap encodeRune) ++
+          [32] ++ c.fmt.apply v 0 c.max) ∧
+        barWriteR A env (scale A c.scaler v 0 c.max) c.barSize = .ok glyphs ∧ (glyphs.length : Int) ≤ c.barSize) := by
+  unfold RowDrawn at h
+  constructor
+  · intro hs
+    rw [if_pos hs] at h
+    obtain ⟨w, hw⟩ := h
+    obtain ⟨bar, hbar⟩ := barWriteStacked_ok env c.max c.barSize row.2
+    refine ⟨w, bar, ?_, hbar⟩
+    have e : c.rowStart i = c.first + i := by simp [BarCfg.rowStart, BarCfg.slot, hs]
+    rw [← e, hw]
+    unfold BarCfg.stackedText
+    simp only [hbar]
+  · intro hs j v hj
+    rw [if_neg (by simp [hs])] at h
+    obtain ⟨w, hw⟩ := h j v hj
+    obtain ⟨rs, h1, h2, _, h4⟩ := bars_bar_shape U env c v (hd v (List.mem_of_getElem? hj)) hm hb hb'
+    refine ⟨(if j > 0 then spaces (w + 2) else wrap env cYellow (padRight row.1 w) ++ ascii "  "), rs, ?_, h1, h4⟩
+    have e : c.rowStart i = c.first + i * c.nsub := by simp [BarCfg.rowStart, BarCfg.slot, hs]
+    rw [← e, hw]
+    unfold BarCfg.groupedText
+    rw [h2]
+
+/-- THE GROUPED-BARS LINE THEOREM (companion of `bars_stacked_number`): `writeBarGrouped(idx, key, vals…)` on any state, any
+values in the domain: it returns; the running maximum is first raised to the row's largest value; line `j` of the
+row shows `vals[j]` drawn with the maximum AFTER raising (bar and `Formatter(vals[j], 0, max')`); no other line changes -/
+theorem bars_grouped_number {α : Type} {A : Arith α} {Dom : Int → Prop} {Unit : α → Prop} {le : α → α → Prop} (U : UnitLaws A Dom Unit le)
+    (env : Env) (g : BarGraph) (vt : VirtualTerm) (ho : vt.closed = false) (i : Nat) (key : Bytes)
+    (vals : List Int) (hdom : ∀ v ∈ vals, Dom v) (hm : Dom g.maxLineVal) (hk : 0 ≤ g.maxKeyLength)
+    (hb : 0 ≤ g.barSize) (hb' : g.barSize ≤ 1000000000000000) (hp : 0 ≤ g.prefixLines)
+    (hsm : g.prefixLines.toNat + i * g.subKeys.length + g.subKeys.length < 4611686018427387904) :
+    ∃ m vt', g.writeBarGrouped A env vt (i : Int) key vals = .ok (({ g with maxLineVal := groupedMax g vals } : BarGraph).withMaxRows m, vt') ∧
+      vt'.closed = false ∧ g.maxLineVal ≤ groupedMax g vals ∧ (∀ v ∈ vals, v ≤ groupedMax g vals) ∧
+      (∀ (j : Nat) (v : Int), vals[j]? = some v →
+        vt'.lines[g.prefixLines.toNat + i * g.subKeys.length + j]? =
+          some (({ g with maxLineVal := groupedMax g vals } : BarGraph).cfg.groupedText A env g.maxKeyLength key j v)) ∧
+      (∀ x y, (x < g.prefixLines.toNat + i * g.subKeys.length ∨ g.prefixLines.toNat + i * g.subKeys.length + vals.length ≤ x) →
+        vt.lines[x]? = some y → vt'.lines[x]? = some y) :=
+  bars_grouped_line U env g vt ho i key vals hdom hm hk hb hb' hp hsm
+
+/-- THE VISIBLE WIDTH OF A WHOLE HEATMAP ROW: `Heatmap.WriteRow(idx, name, cols)` returns, widens the row-key column to the key
+when needed, and the line it writes – coloured key, blanks, ONE heat cell per value – is exactly
+`maxRowKeyWidth + 1 + len(values)` cells wide (`color.StrLen`): the cells start in visible column `maxRowKeyWidth + 1`,
+one column per value – colour on or off, unicode or ASCII, multi-byte keys, keys with terminated colour sequences -/
+theorem heat_row_visible_width {α : Type} {A : Arith α} {Dom : Int → Prop} {Unit : α → Prop} {le : α → α → Prop} (U : UnitLaws A Dom Unit le)
+    (env : Env) (h : Heatmap) (vt : VirtualTerm) (ho : vt.closed = false) (idx : Nat) (name : Bytes) (vals : List Int)
+    (ht : Terminated env name) (hd : ∀ v ∈ vals, Dom v) (hmn : Dom h.minVal) (hmx : Dom h.maxVal) :
+    ∃ h' vt' line cells, h.writeRow A env vt (idx : Int) name vals = .ok (h', vt') ∧ vt'.closed = false ∧
+      vt'.lines[2 + idx]? = some line ∧
+      h'.maxRowKeyWidth = (if strLen env name > h.maxRowKeyWidth then strLen env name else h.maxRowKeyWidth) ∧
+      line = wrap env cYellow name ++ writeRepeat 32 (h'.maxRowKeyWidth - strLen env name + 1) ++ List.flatten cells ∧
+      cells.length = vals.length ∧ (∀ c ∈ cells, IsHeatCell env c) ∧
+      strLen env line = h'.maxRowKeyWidth + 1 + vals.length ∧
+      (∀ j x, j ≠ 2 + idx → vt.lines[j]? = some x → vt'.lines[j]? = some x) :=
+  heat_writeRow_width U env h vt ho idx name vals ht hd hmn hmx
+
 /-! ## heatmap and sparkline as whole renderers -/
 
 /-- the sparkline header (after c54b92c): when the first and the last displayed column name fit next to
@@ -584,6 +779,33 @@ example : bucket (f64Arith id id id id) 16 F64.one = 15 ∧ bucket (f64Arith id 
     lengthVal (f64Arith id id id id) 450 F64.one = 450 := by decide +kernel
 /-- what the guard protects the palettes from: `int(NaN * 15)` is `MinInt64` on amd64 -/
 example : bucket (f64Arith id id id id) 16 F64.nan = -9223372036854775808 := by decide +kernel
+
+/-! non-vacuity of the renderer invariants (binary64 instance) -/
+example : UnitLaws (f64Arith (fun x => F64.sub x F64.one) (fun x => F64.sub x F64.one) id id) I64 UnitF64 (fun u v => u.toRat ≤ v.toRat) :=
+  float_laws_f64 logLikeF64_sub_one logLikeF64_sub_one
+example : ∃ h, Histo.new 3 true false .linear .raw = .ok h ∧ HistoInv (f64Arith (fun x => F64.sub x F64.one) (fun x => F64.sub x F64.one) id id) I64 ⟨false, false⟩ h VirtualTerm.new :=
+  ⟨_, rfl, (histo_new_invariant (float_laws_f64 logLikeF64_sub_one logLikeF64_sub_one) ⟨false, false⟩ 3 true false .linear .raw _ rfl).1⟩
+example : ∀ op ∈ [HistoOp.total 10, .line 0 (ascii "b") 3, .line 1 (ascii "c") 6, .line 2 (ascii "a key longer than sixteen") 0, .line 7 (ascii "beyond") 1],
+    op.Valid I64 3 := by
+  intro op h
+  simp at h
+  rcases h with rfl | rfl | rfl | rfl | rfl <;> simp [HistoOp.Valid, I64, minInt64, maxInt64]
+/-- the redraw at work, on binary64: row 0 is written with maximum 3 (a full bar), then row 1 raises the maximum to 6
+and row 0 is redrawn at half length; the count-0 row with the long key is drawn too (7b183e0) -/
+example : (do let h ← Histo.new 3 true false .linear .raw
+               let r ← Histo.runOps (f64Arith id id id id) ⟨false, false⟩ (h, VirtualTerm.new)
+                 [.total 10, .line 0 (ascii "b") 3, .line 1 (ascii "c") 6, .line 2 (ascii "a key longer than sixteen") 0]
+               pure (r.2.lines.map (fun l => (l.filter (· == 124)).length), r.2.lines.map List.length, r.1.maxVal, r.1.textSpacing) :
+            Res (List Nat × List Nat × Int × Int)).toOption
+    = some ([25, 50, 0], [65, 90, 40], 6, 25) := by decide +kernel
+example : BarPre I64 ({ stacked := false, barSize := 50, scaler := Scaler.linear, fmt := Fmt.raw } : BarGraph) VirtualTerm.new :=
+  bars_new_invariant (float_laws_f64 (P2 := id) (P10 := id) logLikeF64_sub_one logLikeF64_sub_one) false 50 .linear .raw (by decide) (by decide)
+/-- a grouped render on binary64: `b`'s value 8 raises the maximum while the rows are written; `a`'s bar is redrawn: 2/8 of 50 -/
+example : (do let r ← BarGraph.writeOutput (f64Arith id id id id) ⟨false, false⟩ { barSize := 50, scaler := Scaler.linear, fmt := Fmt.raw } VirtualTerm.new [ascii "x"] [(ascii "a", [2]), (ascii "b", [8])]
+              pure (r.2.lines.map (fun l => (l.filter (· == 124)).length), r.1.maxLineVal) : Res (List Nat × Int)).toOption
+    = some ([0, 12, 50], 8) := by decide +kernel
+example : Terminated ⟨true, true⟩ [0xe6, 0x97, 0xa5] ∧ Terminated ⟨true, true⟩ (27 :: ascii "[31mred" ++ 27 :: ascii "[0m") := by
+  constructor <;> intro _ <;> decide +kernel
 
 /-- the compiled form of `{0}/{2}`: the same value under another maximum gives another text -/
 example : exprFormat [Expr.Comp.match_ 0, Expr.Stage.lit (ascii "/"), Expr.Comp.match_ 2] 5 0 9 = ascii "5/9" ∧
